@@ -22,8 +22,7 @@ def explains(stage, status, panic_at):
     st = stage.split(":")[0]
     if st == "sql" and status == "panic" and "sea-query" in (panic_at or "") and "backend/sqlite/table.rs" in (panic_at or ""):
         return (["sqlite_numeric"] if ":157" in panic_at else []) + (["sqlite_interval"] if ":169" in panic_at else [])
-    if st == "display" and status == "panic":
-        return ["history_rawsql"]
+    # a Display panic has no known class any more (C16-display-rawsql-slice was fixed by b4532c3): always unexplained
     if stage.startswith("export:seaorm") and status in ("timeout", "crash"):
         return ["models_fk_cycle"]
     if st == "plan" and status == "error":
@@ -70,10 +69,8 @@ def verdict(chk, run, tier, seed):
     for r in drows:
         if r["panic"]:
             n_disp_panics += 1
-            if dcls.get(str(r["idx"])) and "C16-display-rawsql-slice" in open_ids:
-                known_hits["C16-display-rawsql-slice"] += 1
-            else:
-                unexplained.append({"stage": "display", "status": "panic", "input": {"action": r["action"]}})
+            # Display is proved total: any panic is a violation (no known class)
+            unexplained.append({"stage": "display", "status": "panic", "input": {"action": r["action"]}})
     # ---- oracle 2: SeaORM renders that did not come back (subprocess) or panicked
     for o in obs:
         for j, t in enumerate(o["tables"]):
@@ -147,8 +144,8 @@ def verdict(chk, run, tier, seed):
                                                  "undischarged": len(sites.get("undischarged_panic", [])), "stale": sites.get("stale_panic"),
                                                  "tagged_unreviewed(query builder)": sites.get("unreviewed")}}
     ok_disp = sum(1 for r in drows if not dcls.get(str(r["idx"])))
-    chk.cov["theorem_coverage"] = {"actions": len(drows), "rawsql_ok=true (display_total applies)": ok_disp,
-                                   "known_C16_rawsql_slice=true": len(drows) - ok_disp,
+    chk.cov["theorem_coverage"] = {"actions": len(drows), "display_total applies (no hypothesis)": len(drows),
+                                   "actions in the class of the fixed finding C16-display-rawsql-slice (byte 47 inside a character), all rendered": len(drows) - ok_disp,
                                    "stages_only_tested": "build_plan_queries/.build (3 backends), exporter text rendering (planner: proved on the M1 model)",
                                    "oracle_failures": n_disp_panics + len(fails), "classified_known": dict(known_hits), "unexplained": len(unexplained)}
     chk.cov["cached_run"] = {"disp": disp.get("cached"), "exp": exp.get("cached"), "c16": o16.get("cached")}
@@ -189,7 +186,7 @@ def planner_stage(chk):
 
 def run(tier, seed):
     chk = vflib.Check(PROP, tier, seed)
-    chk.assumptions = ["PROVED (model = coq/exp/Model/Display.v, Names.v; tie = K-disp, K-exp inside Coq): exact characterisation of the panicking inputs of Display for MigrationAction, totality of the CLI's format_action model, non-termination of resolve_fk_target on single-column FK cycles and fuel-independence of its answer elsewhere",
+    chk.assumptions = ["PROVED (model = coq/exp/Model/Display.v, Names.v; tie = K-disp, K-exp inside Coq): Display for MigrationAction is total for all actions (the RawSql arm cuts at the largest char boundary <= 47) and its text is the pre-fix one wherever that did not panic, in particular for ASCII; totality of the CLI's format_action model, non-termination of resolve_fk_target on single-column FK cycles and fuel-independence of its answer elsewhere",
                        "PROVED for the planner model (coq/m1/Model/Diff.v, tied to plan_next_migration by K-diff in the M1 checks; pins in coq/m1/Properties/C16_planner.v): the two fuelled Kahn sorts never run out of fuel and diff_actions / plan_next can only fail with DiffTableValidation or DiffCycle — never with the panic or out-of-fuel outcome",
                        "PARTIAL: SQL generation for the three backends and the text rendering of the exporters are covered by the PanicSites discharge table (every unwrap / expect / panic! / unreachable! / slice / index / direct recursion of the non-test code of core, planner, query, loader, exporter, cli has a tagged entry; 7 query-builder entries are tagged unreviewed) and by the oracle O-C16 (catch_unwind, subprocess per batch, wall-clock cap per stage): tests, not proofs",
                        "format_action is private to the vespertide binary: its model is proved total but is not tied to the code by a correspondence (the CLI is not run by this check)",
